@@ -50,25 +50,293 @@ theorem writeFile_trace (p content : Bytes) (s s' : DState) (h : (writeFile p co
     · cases h2
   · cases h
 
-/-- the sources of git renames are removed only after every deferred file has been completely written: in the operations of
-    `DeferredWriter::finalize` no `unlink`/`rmdir` precedes a `creat`/`write`/`chmod`/`mkdir` or the `rename` of a backup -/
+/-- removing a file and its emptied directories changes nothing but the tree, the trace and the operation counter -/
+theorem removeFileAndEmptyParents_keeps {β : Type} (f : DState → β)
+    (hf : ∀ (s : DState) fs' t n, f { s with fs := fs', trace := t, opCount := n } = f s)
+    (p : Bytes) {s s' : DState} {r : Except Exn Unit} (h : (removeFileAndEmptyParents p).run s = (r, s')) : f s' = f s := by
+  have g : Good (fun s s' : DState => f s' = f s) (fun _ s s' => f s' = f s) :=
+    ⟨fun _ => rfl, fun h1 h2 => h2.trans h1, fun h1 h2 => h2.trans h1⟩
+  have h1 : ∀ op tol, Spec (fun s s' : DState => f s' = f s) (fun _ s s' => f s' = f s) (tryOp op tol) :=
+    fun op tol => Spec.tryOp op tol (fun s _ _ => hf s _ _ _) (fun s => hf s s.fs s.trace _) (fun s => hf s s.fs s.trace _)
+  have h2 : ∀ op, Spec (fun s s' : DState => f s' = f s) (fun _ s s' => f s' = f s) (doOp op) :=
+    fun op => Spec.doOp op (fun s _ _ => hf s _ _ _) (fun s => hf s s.fs s.trace _)
+  have key : Spec (fun s s' : DState => f s' = f s) (fun _ s s' => f s' = f s) (removeFileAndEmptyParents p) := by
+    unfold removeFileAndEmptyParents; spec_walk g
+  cases r with
+  | ok a => exact key.ok _ _ _ h
+  | error e => exact key.err _ _ _ h
+
+/-- an operation of the removal phase of `DeferredWriter::finalize`: an `unlink` / `rmdir`, or the backup of a removal entry whose
+    backup is due (the `rename` of the file to its backup name; the `creat` of an empty backup if the file is not there; before
+    either, the `mkdir` of a directory of the backup name — `-B bak/` — that does not exist yet).
+
+    CHANGED with the model change "`Backup::make_backup_for` creates the directories of the backup name": the `mkdir` clause is new
+    (`RemovalOp_old_false` below). -/
+def RemovalOp (o : Options) (s : DState) (l : List (Bytes × Bool)) (op : FsOp) : Prop :=
+  (∃ p, op = FsOp.unlink p ∨ op = FsOp.rmdir p) ∨
+  ∃ e ∈ l, e.2 = true ∧ (op = FsOp.rename (absPath s e.1) (absPath s (backupName o e.1)) ∨
+    op = FsOp.creat (absPath s (backupName o e.1)) ∨
+    ∃ d ∈ dirPrefixes (backupName o e.1), op = FsOp.mkdir (absPath s d))
+
+theorem RemovalOp.cwd {o : Options} {s s1 : DState} {l : List (Bytes × Bool)} {op : FsOp} (hc : s1.cwd = s.cwd)
+    (h : RemovalOp o s1 l op) : RemovalOp o s l op := by
+  unfold RemovalOp at *
+  simp only [absPath_cwd hc] at h
+  exact h
+
+/-- the operations of one removal -/
+theorem removeNow_ops (o : Options) (p : Bytes) (b : Bool) {s s' : DState} {r : Except Exn Unit}
+    (h : (removeNow o p b).run s = (r, s')) :
+    s'.cwd = s.cwd ∧ ∃ ops, s'.trace = s.trace ++ ops ∧ ∀ op ∈ ops, RemovalOp o s [(p, b)] op := by
+  unfold removeNow at h
+  rw [run_bind] at h
+  have hB : ∀ {M B : List FsOp},
+      (∀ op ∈ M, ∃ d ∈ dirPrefixes (backupName o p), op = FsOp.mkdir (absPath s d)) →
+      (B = [] ∨ B = [FsOp.rename (absPath s p) (absPath s (backupName o p))] ∨ B = [FsOp.creat (absPath s (backupName o p))]) →
+      (b = false ∨ s.backedUp.contains (backupName o p) = true → M = [] ∧ B = []) → ∀ op ∈ M ++ B, RemovalOp o s [(p, b)] op := by
+    intro M B h0 h1 h2 op hop
+    cases b with
+    | false => rw [(h2 (Or.inl rfl)).1, (h2 (Or.inl rfl)).2] at hop; cases hop
+    | true =>
+      rcases List.mem_append.1 hop with hop | hop
+      · exact Or.inr ⟨_, List.mem_singleton.2 rfl, rfl, Or.inr (Or.inr (h0 op hop))⟩
+      · rcases h1 with rfl | rfl | rfl
+        · cases hop
+        · rw [List.mem_singleton.1 hop]; exact Or.inr ⟨_, List.mem_singleton.2 rfl, rfl, Or.inl rfl⟩
+        · rw [List.mem_singleton.1 hop]; exact Or.inr ⟨_, List.mem_singleton.2 rfl, rfl, Or.inr (Or.inl rfl)⟩
+  split at h
+  · next _ s1 h1 =>
+    obtain ⟨c1, M, B, t1, hM, hB1, -, hB0, -⟩ := backupStep_shape o b p h1
+    rw [List.append_assoc] at t1
+    rw [run_bind, run_fsExists] at h
+    simp only [] at h
+    split at h
+    · obtain ⟨U, t2, hU⟩ := (removeFileAndEmptyParents_trExt (A := fun op => ∃ q, op = FsOp.unlink q ∨ op = FsOp.rmdir q)
+        (fun q => ⟨q, Or.inl rfl⟩) (fun q => ⟨q, Or.inr rfl⟩) p).run h
+      refine ⟨(removeFileAndEmptyParents_keeps (·.cwd) (fun _ _ _ _ => rfl) p h).trans c1, (M ++ B) ++ U,
+        by rw [t2, t1, List.append_assoc], ?_⟩
+      intro op hop
+      rcases List.mem_append.1 hop with hop | hop
+      · exact hB hM hB1 hB0 op hop
+      · exact Or.inl (hU op hop)
+    · cases h
+      exact ⟨c1, M ++ B, t1, hB hM hB1 hB0⟩
+  · next e s1 h1 =>
+    cases h
+    obtain ⟨c1, M, B, t1, hM, hB1, -, hB0, -⟩ := backupStep_shape o b p h1
+    rw [List.append_assoc] at t1
+    exact ⟨c1, M ++ B, t1, hB hM hB1 hB0⟩
+
+/-- the removal loop -/
+theorem removals_ops (o : Options) (ws : List DeferredWrite) :
+    ∀ (l : List (Bytes × Bool)) {s s' : DState} {r : Except Exn PUnit},
+      (forIn l PUnit.unit fun e (_ : PUnit) =>
+        if (!ws.any fun x => x.dest == e.fst) = true then do
+          removeNow o e.fst e.snd
+          pure (ForInStep.yield PUnit.unit)
+        else (pure (ForInStep.yield PUnit.unit) : DM (ForInStep PUnit))).run s = (r, s') →
+      s'.cwd = s.cwd ∧ ∃ ops, s'.trace = s.trace ++ ops ∧ ∀ op ∈ ops, RemovalOp o s l op
+  | [], s, s', r, h => by
+    rw [List.forIn_nil] at h; cases h
+    exact ⟨rfl, [], by simp, by simp⟩
+  | e :: l, s, s', r, h => by
+    rw [List.forIn_cons, run_bind] at h
+    have mono1 : ∀ op, RemovalOp o s [(e.1, e.2)] op → RemovalOp o s (e :: l) op := by
+      rintro op (h | ⟨e', he', h⟩)
+      · exact Or.inl h
+      · rw [List.mem_singleton.1 he'] at h
+        exact Or.inr ⟨e, List.mem_cons_self, h⟩
+    have mono2 : ∀ op, RemovalOp o s l op → RemovalOp o s (e :: l) op := by
+      rintro op (h | ⟨e', he', h⟩)
+      · exact Or.inl h
+      · exact Or.inr ⟨e', List.mem_cons_of_mem _ he', h⟩
+    have step : ∀ {s1 : DState} {r1 : Except Exn (ForInStep PUnit)},
+        (if (!ws.any fun x => x.dest == e.fst) = true then do
+          removeNow o e.fst e.snd
+          pure (ForInStep.yield PUnit.unit)
+        else (pure (ForInStep.yield PUnit.unit) : DM (ForInStep PUnit))).run s = (r1, s1) →
+        (s1.cwd = s.cwd ∧ ∃ ops, s1.trace = s.trace ++ ops ∧ ∀ op ∈ ops, RemovalOp o s (e :: l) op) ∧
+        ∀ x, r1 = .ok x → x = ForInStep.yield PUnit.unit := by
+      intro s1 r1 h1
+      split at h1
+      · rw [run_bind] at h1
+        split at h1
+        · next _ s2 h2 =>
+          cases h1
+          obtain ⟨c, ops, t, ho⟩ := removeNow_ops o e.1 e.2 h2
+          exact ⟨⟨c, ops, t, fun op hop => mono1 op (ho op hop)⟩, fun x hx => by cases hx; rfl⟩
+        · next _ s2 h2 =>
+          cases h1
+          obtain ⟨c, ops, t, ho⟩ := removeNow_ops o e.1 e.2 h2
+          exact ⟨⟨c, ops, t, fun op hop => mono1 op (ho op hop)⟩, fun x hx => by cases hx⟩
+      · cases h1
+        exact ⟨⟨rfl, [], by simp, by simp⟩, fun x hx => by cases hx; rfl⟩
+    split at h
+    · next a s1 h1 =>
+      obtain ⟨⟨c1, ops1, t1, ho1⟩, ha⟩ := step h1
+      rw [ha a rfl] at h
+      obtain ⟨c2, ops2, t2, ho2⟩ := removals_ops o ws l h
+      refine ⟨c2.trans c1, ops1 ++ ops2, by rw [t2, t1, List.append_assoc], ?_⟩
+      intro op hop
+      rcases List.mem_append.1 hop with hop | hop
+      · exact ho1 op hop
+      · exact mono2 op ((ho2 op hop).cwd c1)
+    · next e1 s1 h1 =>
+      cases h
+      exact (step h1).1
+
+def CwdR (s s' : DState) : Prop := s'.cwd = s.cwd
+theorem good_cwd : Good CwdR (fun _ => CwdR) := ⟨fun _ => rfl, fun h1 h2 => h2.trans h1, fun h1 h2 => h2.trans h1⟩
+
+/-- **the sources of git renames are removed — or, with a backup due, moved to their backup names — only after every deferred file
+    has been completely written**: the operations of `DeferredWriter::finalize` are `ws ++ rs`, no `unlink`/`rmdir` among `ws`, and
+    every operation of `rs` is an `unlink`/`rmdir` or the backup of a removal entry whose backup is due (`RemovalOp`): no `write`,
+    no `chmod`, no `creat` but that of an empty backup, and no `mkdir` but that of a directory of such a backup name.
+
+    CHANGED with the model change "the source of a git rename is moved to its backup name under -b".  The statement was
+
+        … ∧ (∀ op ∈ ws, ∀ p, op ≠ FsOp.unlink p ∧ op ≠ FsOp.rmdir p) ∧ (∀ op ∈ rs, ∃ p, op = FsOp.unlink p ∨ op = FsOp.rmdir p)
+
+    which is false now (`finalize_removals_last_old_false` below: the backup `rename` of a second removal comes after the `unlink`
+    of the first); it still holds when no removal entry has a backup due (`finalize_removals_last_plain`). -/
 theorem finalize_removals_last (o : Options) (s s' : DState) (r : Except Exn Unit) (h : (finalizeDeferred o).run s = (r, s')) :
     ∃ ws rs, s'.trace = s.trace ++ ws ++ rs ∧
       (∀ op ∈ ws, ∀ p, op ≠ FsOp.unlink p ∧ op ≠ FsOp.rmdir p) ∧
-      (∀ op ∈ rs, ∃ p, op = FsOp.unlink p ∨ op = FsOp.rmdir p) := by
-  unfold finalizeDeferred at h
-  rw [run_bind, run_get] at h
-  refine TrExt.seq2 (A := fun op => ∀ p, op ≠ FsOp.unlink p ∧ op ≠ FsOp.rmdir p)
-    (B := fun op => ∃ p, op = FsOp.unlink p ∨ op = FsOp.rmdir p) ?_ (fun _ => ?_) h
-  · spec_walk (good_ext _)
+      (∀ op ∈ rs, RemovalOp o s s.dRemovals op) := by
+  rw [finalizeDeferred_eq, run_bind, run_get] at h
+  simp only [] at h
+  rw [run_bind] at h
+  have hA : TrExt (fun op => ∀ p, op ≠ FsOp.unlink p ∧ op ≠ FsOp.rmdir p)
+      (forIn s.dWrites PUnit.unit fun w (_ : PUnit) => do
+        ensureParentDirs w.dest
+        writeNow o w.dest w.perm w.backup w.content w.newMode
+        (pure (ForInStep.yield PUnit.unit) : DM (ForInStep PUnit))) := by
+    unfold writeNow
+    spec_walk (good_ext _)
     all_goals first
       | exact ensureParentDirs_trExt (by intro p q; simp) _
       | exact makeWritable_trExt (by intro p m q; simp) _ _
-      | exact makeBackupFor_trExt (by intro a b q; simp) (by intro a q; simp) _ _
+      | exact makeBackupFor_trExt (by intro a q; simp) (by intro a b q; simp) (by intro a q; simp) _ _
       | exact writeFile_trExt (by intro p q; simp) (by intro p b q; simp) _ _
       | exact permissionCallback_trExt (by intro p m q; simp) _ _ _
-  · spec_walk (good_ext _)
-    exact removeFileAndEmptyParents_trExt (fun p => ⟨p, Or.inl rfl⟩) (fun p => ⟨p, Or.inr rfl⟩) _
+  have hC : Spec CwdR (fun _ => CwdR)
+      (forIn s.dWrites PUnit.unit fun w (_ : PUnit) => do
+        ensureParentDirs w.dest
+        writeNow o w.dest w.perm w.backup w.content w.newMode
+        (pure (ForInStep.yield PUnit.unit) : DM (ForInStep PUnit))) := by
+    have h1 : ∀ p, Spec CwdR (fun _ => CwdR) (ensureParentDirs p) := fun p =>
+      ⟨fun _ _ _ h => ensureParentDirs_keeps (·.cwd) (fun _ _ _ _ => rfl) p h,
+       fun _ _ _ h => ensureParentDirs_keeps (·.cwd) (fun _ _ _ _ => rfl) p h⟩
+    have h2 : ∀ a b c d e, Spec CwdR (fun _ => CwdR) (writeNow o a b c d e) := fun a b c d e =>
+      ⟨fun _ _ _ h => (writeNow_shape o a b c d e h).1, fun _ _ _ h => (writeNow_shape o a b c d e h).1⟩
+    spec_walk good_cwd
+  split at h
+  · next a s1 h1 =>
+    obtain ⟨ws, t1, hw⟩ := hA.run h1
+    have c1 : s1.cwd = s.cwd := hC.ok _ _ _ h1
+    rw [run_bind] at h
+    have key : ∀ {r2 : Except Exn PUnit} {s2 : DState},
+        (forIn s.dRemovals PUnit.unit fun e (_ : PUnit) =>
+          if (!s.dWrites.any fun x => x.dest == e.fst) = true then do
+            removeNow o e.fst e.snd
+            pure (ForInStep.yield PUnit.unit)
+          else (pure (ForInStep.yield PUnit.unit) : DM (ForInStep PUnit))).run s1 = (r2, s2) →
+        ∃ rs, s2.trace = s.trace ++ ws ++ rs ∧ ∀ op ∈ rs, RemovalOp o s s.dRemovals op := by
+      intro r2 s2 h2
+      obtain ⟨-, rs, t2, hr⟩ := removals_ops o s.dWrites s.dRemovals h2
+      exact ⟨rs, by rw [t2, t1], fun op hop => (hr op hop).cwd c1⟩
+    split at h
+    · next _ s2 h2 =>
+      cases h
+      obtain ⟨rs, t, hr⟩ := key h2
+      exact ⟨ws, rs, t, hw, hr⟩
+    · next _ s2 h2 =>
+      cases h
+      obtain ⟨rs, t, hr⟩ := key h2
+      exact ⟨ws, rs, t, hw, hr⟩
+  · next e s1 h1 =>
+    cases h
+    obtain ⟨ws, t1, hw⟩ := hA.run h1
+    exact ⟨ws, [], by rw [t1]; simp, hw, by simp⟩
+
+
+/-- the statement as it was, for runs in which no removal has a backup due (in particular: no -b, every hunk applied exactly) -/
+theorem finalize_removals_last_plain (o : Options) (s s' : DState) (r : Except Exn Unit) (h : (finalizeDeferred o).run s = (r, s'))
+    (hb : ∀ e ∈ s.dRemovals, e.2 = false) :
+    ∃ ws rs, s'.trace = s.trace ++ ws ++ rs ∧
+      (∀ op ∈ ws, ∀ p, op ≠ FsOp.unlink p ∧ op ≠ FsOp.rmdir p) ∧
+      (∀ op ∈ rs, ∃ p, op = FsOp.unlink p ∨ op = FsOp.rmdir p) := by
+  obtain ⟨ws, rs, t, hw, hr⟩ := finalize_removals_last o s s' r h
+  refine ⟨ws, rs, t, hw, fun op hop => ?_⟩
+  rcases hr op hop with h | ⟨e, he, h, -⟩
+  · exact h
+  · rw [hb e he] at h; cases h
+
+/-! the old statement is false: two pending removals, "a" without and "b" with a backup due — `unlink a`, then `rename b b.orig`
+    (in a run: `-b`, a git patch that changes `a`, renames `a` and renames `b`: the backup of `a` is made when `a` is written, so
+    `a` is unlinked, and `b` is moved to `b.orig` after that) -/
+def cexRemovals : DState :=
+  { fs := { nodes := [([97], .file [] 0o644), ([98], .file [] 0o644)] }, dRemovals := [([97], false), ([98], true)] }
+
+theorem cexRemovals_run : ((finalizeDeferred defaultOptions).run cexRemovals).2.trace =
+    [.unlink [97], .rename [98] [98, 46, 111, 114, 105, 103]] := by decide +kernel
+
+theorem finalize_removals_last_old_false :
+    ¬ ∀ (o : Options) (s s' : DState) (r : Except Exn Unit), (finalizeDeferred o).run s = (r, s') →
+      ∃ ws rs, s'.trace = s.trace ++ ws ++ rs ∧
+        (∀ op ∈ ws, ∀ p, op ≠ FsOp.unlink p ∧ op ≠ FsOp.rmdir p) ∧
+        (∀ op ∈ rs, ∃ p, op = FsOp.unlink p ∨ op = FsOp.rmdir p) := by
+  intro h
+  have h1 := h defaultOptions cexRemovals ((finalizeDeferred defaultOptions).run cexRemovals).2
+    ((finalizeDeferred defaultOptions).run cexRemovals).1 rfl
+  rw [cexRemovals_run] at h1
+  obtain ⟨ws, rs, t, hw, hr⟩ := h1
+  have t' : [FsOp.unlink [97], FsOp.rename [98] [98, 46, 111, 114, 105, 103]] = ws ++ rs := by
+    rw [t]; rfl
+  cases ws with
+  | nil =>
+    rw [List.nil_append] at t'
+    obtain ⟨p, hp | hp⟩ := hr (FsOp.rename [98] [98, 46, 111, 114, 105, 103]) (by rw [← t']; simp)
+    · cases hp
+    · cases hp
+  | cons w ws =>
+    rw [List.cons_append] at t'
+    injection t' with h1 _
+    exact (hw w List.mem_cons_self [97]).1 h1.symm
+
+/-! `RemovalOp` without its `mkdir` clause is false now: `-B bak/`, two pending removals, "a" without and "b" with a backup due —
+    `unlink a`, then `mkdir bak`, then `rename b bak/b` -/
+def cexRemovals2 : DState :=
+  { fs := { nodes := [([97], .file [] 0o644), ([98], .file [] 0o644)] }, dRemovals := [([97], false), ([98], true)] }
+def cexO2 : Options := { defaultOptions with backupPrefix := [98, 97, 107, 47] }
+
+theorem cexRemovals2_run : ((finalizeDeferred cexO2).run cexRemovals2).2.trace =
+    [.unlink [97], .mkdir [98, 97, 107], .rename [98] [98, 97, 107, 47, 98]] := by decide +kernel
+
+theorem RemovalOp_old_false :
+    ¬ ∀ (o : Options) (s s' : DState) (r : Except Exn Unit), (finalizeDeferred o).run s = (r, s') →
+      ∃ ws rs, s'.trace = s.trace ++ ws ++ rs ∧
+        (∀ op ∈ ws, ∀ p, op ≠ FsOp.unlink p ∧ op ≠ FsOp.rmdir p) ∧
+        (∀ op ∈ rs, (∃ p, op = FsOp.unlink p ∨ op = FsOp.rmdir p) ∨
+          ∃ e ∈ s.dRemovals, e.2 = true ∧ (op = FsOp.rename (absPath s e.1) (absPath s (backupName o e.1)) ∨
+            op = FsOp.creat (absPath s (backupName o e.1)))) := by
+  intro h
+  rcases hrun : (finalizeDeferred cexO2).run cexRemovals2 with ⟨r, s'⟩
+  have h1 := h cexO2 cexRemovals2 s' r hrun
+  have ht := cexRemovals2_run
+  rw [hrun] at ht
+  rw [show s'.trace = _ from ht] at h1
+  obtain ⟨ws, rs, t, hw, hr⟩ := h1
+  have t' : [FsOp.unlink [97], FsOp.mkdir [98, 97, 107], FsOp.rename [98] [98, 97, 107, 47, 98]] = ws ++ rs := by
+    rw [t]; rfl
+  cases ws with
+  | nil =>
+    rw [List.nil_append] at t'
+    rcases hr (FsOp.mkdir [98, 97, 107]) (by rw [← t']; simp) with ⟨p, hp | hp⟩ | ⟨e, _, _, hp | hp⟩ <;> cases hp
+  | cons w ws =>
+    rw [List.cons_append] at t'
+    injection t' with h1 _
+    exact (hw w List.mem_cons_self [97]).1 h1.symm
 
 /-- the record `write_patched_result_to_file` hands to `DeferredWriter` -/
 def deferredRecord (p : Patch) (out : Bytes) (perm : PermResult) (sb : Bool) (content : Bytes) : DeferredWrite :=
@@ -144,5 +412,8 @@ end PatchModel.C09
 #print axioms PatchModel.C09.section_atomic_strict
 #print axioms PatchModel.C09.writeFile_trace
 #print axioms PatchModel.C09.finalize_removals_last
+#print axioms PatchModel.C09.finalize_removals_last_plain
+#print axioms PatchModel.C09.finalize_removals_last_old_false
+#print axioms PatchModel.C09.RemovalOp_old_false
 #print axioms PatchModel.C09.deferred_write_touches_nothing
 #print axioms PatchModel.C09.deferred_write_no_backup_yet
